@@ -679,6 +679,18 @@ class Program:
         self._async[path] = res
         return res
 
+    def coroutines(self):
+        """paths of every coroutine body (async fn bodies and async blocks)."""
+        if not hasattr(self, '_cor'):
+            self._cor = set()
+            for f in self.fns.values():
+                for b in f.blocks:
+                    for st in b['s']:
+                        rv = st.get('rv') or {}
+                        if rv.get('ak') == 'coroutine' and rv.get('def'):
+                            self._cor.add(rv['def'])
+        return self._cor
+
     def find_fns(self, rx):
         r = re.compile(rx)
         return [f for p, f in sorted(self.fns.items()) if r.search(p)]
